@@ -721,7 +721,7 @@ class ModelFeatures:
     def _lnt_peripherals(self, other, lnt, subset):
         if subset == "pk":
             keys = ["DRUG"]
-        if subset == "metabolite":
+        elif subset == "metabolite":
             keys = ["MET"]
         else:
             keys = ["DRUG", "MET"]
